@@ -128,4 +128,21 @@ SEEDS = [
 		inode.owner = uint32(uid)
 		inode.permissionsOwner.special = false
 	}''')]},
+ {"name": "c04-read-processes-extent-ending-at-start-block", "properties": ["C04"], "expect": "C04-f|",
+  "edits": [e("filesystem/ext4/file.go", "if uint64(e.fileBlock)+uint64(e.count) <= readStartBlock {", "if uint64(e.fileBlock)+uint64(e.count) < readStartBlock {")]},
+ {"name": "c04-refactor-extent-skip-inverted", "properties": ["C04"], "silent": True, "expect": "",
+  "edits": [e("filesystem/ext4/file.go", """		if uint64(e.fileBlock)+uint64(e.count) <= writeStartBlock {
+			continue
+		}""", """		if extentEnd := uint64(e.fileBlock) + uint64(e.count); !(extentEnd > writeStartBlock) {
+			continue
+		}""")]},
+ {"name": "c05-writedirectory-size-from-listing-only", "properties": ["C05"], "expect": "C05-g|",
+  "edits": [e(X, """	if allocatedBlocks := int(extents.blockCount()); allocatedBlocks > requiredBlocks {
+		emptyBlock := fs.emptyDirectoryBlock(parentInode.number, parentInode.nfsFileVersion)
+		for i := requiredBlocks; i < allocatedBlocks; i++ {
+			dirBytes = append(dirBytes, emptyBlock...)
+		}
+		requiredBlocks = allocatedBlocks
+	}
+""", "")]},
 ]
